@@ -390,6 +390,10 @@ class _DataFiles:
                         result.append(pickle.load(input_file))
                 except EOFError:
                     pass
+                except Exception:
+                    # The file is damaged, e.g. cut short by a save that was
+                    # interrupted; behave as if it had not been written.
+                    return None
                 if len(result) == 1:
                     return result[0]
                 if len(result) > 1:
